@@ -60,7 +60,12 @@ JA(xs) == [j |-> "arr", xs |-> xs]
 JO(es) == [j |-> "obj", es |-> es]
 StrChars == {"z", "9", DQ, BS, "^n", "é", "/", " ", ",", "}", "]", ":", SQ}
 Strs(n) == UNION {[1..l -> StrChars] : l \in 0..n}
-Scalars(n) == {JNull, JB("true"), JB("false"), JN(<<"7">>), JN(<<"-","1","2">>), JN(<<"1",".","5">>), JN(<<"1","e","+","2","1">>)}
+\* the 64-bit boundaries: 2^64 - 1 and -2^63 are integers, 2^64 and -2^63 - 1 are floats
+Big(s) == JN(s)
+Scalars(n) == {JNull, JB("true"), JB("false"), JN(<<"7">>), JN(<<"-","1","2">>), JN(<<"1",".","5">>), JN(<<"1","e","+","2","1">>),
+               Big(UMax64), Big(<<"1","8","4","4","6","7","4","4","0","7","3","7","0","9","5","5","1","6","1","6">>),
+               Big(<<"-">> \o IMinAbs64), Big(<<"-","9","2","2","3","3","7","2","0","3","6","8","5","4","7","7","5","8","0","9">>),
+               Big(<<"1","0","0","0","0","0","0","0","0","0","0","0","0","0","0","0","0","0","0","0","0">>)}
               \cup {JS(s) : s \in Strs(n)}
 Keys2 == {<<"k">>, <<"a", " ", "b">>, <<DQ>>}
 Docs1(n) == Scalars(n)
